@@ -2,10 +2,12 @@ CHECK = {
     "suites": [suite("tracker", "c06", 20000, 250000, stdin=True, args=["-mode", "t"]),
                suite("global", "c06", 5000, 50000, stdin=True, args=["-mode", "g"]),
                suite("faults", "c06", 6000, 80000, stdin=True, args=["-mode", "tf"]),
-               suite("recover", "c06", 2500, 30000, stdin=True, args=["-mode", "tr"])],
+               suite("recover", "c06", 2500, 30000, stdin=True, args=["-mode", "tr"]),
+               suite("filters", "c06", 4000, 60000, stdin=True, args=["-mode", "fs"])],
     "gen": [{"pkg": "extract_c06", "out": "lean/ClusterVerif/Gen/C06.lean"}],
     "lean_sources": ["ClusterVerif/Model/C06.lean", "ClusterVerif/Spec/C06.lean", "ClusterVerif/Lemmas/C06.lean",
-                     "ClusterVerif/Lemmas/C06F.lean", "ClusterVerif/Gen/C06.lean"],
+                     "ClusterVerif/Lemmas/C06F.lean", "ClusterVerif/Gen/C06.lean", "ClusterVerif/Model/C06S.lean",
+                     "ClusterVerif/Spec/C06S.lean", "ClusterVerif/Lemmas/C06S.lean"],
     "rule": "tracker cases = (this peer, 0-9 CIDs each with a pinset entry (absent/meta/allocated elsewhere/here/everywhere, recursive or direct), "
             "what the daemon holds (unpinned/direct/recursive/indirect), the last operation and its phase; filter 0, the 12 single statuses, bit 0, the "
             "composites and random unions incl. bits above 2^13); global cases = member list (reachable/unreachable/refusing peers), pinset entry, "
@@ -14,12 +16,16 @@ CHECK = {
             "through the real dsstate, PinLs direct / recursive, State.Get of a cid, PinLsCid of a cid) + an answer stream (1 in 6: arbitrary type-string classes "
             "per cid incl. unknown strings), PinInfo bits of both views; recover cases = a tracker case, Recover on every cid or RecoverAll, views read before "
             "and right after; the fault distribution is the arm histogram (f-*, unknown-type, incoherent-daemon, g?-peers-fails, g?-timeout, ...); "
+            "filters cases = a filter text (0-4 tokens: status names, near misses, empty tokens, spaces, odd separators), a mask (0, single, composite, "
+            "almost-composite, random 13-bit, with bits above 2^13 or bit 0), a status, local or not; "
             "one splitmix64 stream per case index; non-trivial = non-empty universe with the daemon answering / non-follower; distinct by case line",
     "trusted_base": ["scripted IPFSConnector RPC service stands in for ipfshttp (PinLsCid asks for the pin's own type, PinLs(type) lists that type; it keeps type "
                      "strings and turns them into statuses with the real IPFSPinStatusFromString; scripted failures per call)",
                      "faulty datastore under the real dsstate (Query fails at once or yields an error result mid-way), State.Get wrapper failing for chosen cids",
                      "fake consensus (Peers, State) behind the real Cluster; member trackers answer canned replies over real gorpc/libp2p loopback streams",
-                     "verif_export.go wrapper VerifNewCluster"],
+                     "verif_export.go wrapper VerifNewCluster",
+                     "filters suite: recording Cluster RPC service behind the real rest.API and the real REST client over loopback HTTP; "
+                     "url.QueryEscape / URL.Query() taken as the identity on the filter text"],
     "assumptions": ["quiescent = the last operation of a CID is the one the pinset calls for and the daemon answers pin/ls",
                     "the tracker's OperationRemote (housekeeping unpin for pins allocated elsewhere) is not a 'last pin or unpin' of the statement",
                     "a member's reply carries its own peer ID",
@@ -38,7 +44,16 @@ META = {
             "recorded K06e); Recover / RecoverAll answers equal the views read right after. The model is tied to today's code by running the real tracker "
             "(real dsstate, real operation tracker, scripted daemon) and the real Cluster.Status/StatusAll (real gorpc over loopback libp2p hosts) on "
             "thousands of seeded cases and checking (a) the model reproduces every observation and (b) the Lean property checker on the real outputs; "
-            "status constants and the two translation tables are regenerated from the linked packages on every run.",
+            "status constants and the two translation tables are regenerated from the linked packages on every run. Round 8: the filter's way from text "
+            "to the tracker - the trackerStatusString table, the composite definitions, the expression TrackerStatus.Match returns, the loop condition "
+            "of TrackerStatus.String, the strip/split/combine of TrackerStatusFromString and the guards of the REST handler, the REST client and "
+            "ipfs-cluster-ctl are read from the source with go/ast and INTERPRETED by the model (a changed operator, constant, name or guard changes the "
+            "model's behaviour); theorems for every status / filter / text: the interpreted Match is the model's matchF, a non-empty text is refused exactly "
+            "when it names nothing and never means 'all', a comma-separated text means the union of its parts, matching a union is matching one part (the "
+            "listing for f|g is the union of the listings), Split(Join(names)) gives the names back; which tracker method each RPC entry point calls and "
+            "with which argument is regenerated (rpc_api.go, cluster.go). The real TrackerStatusFromString / String / Match, the real REST handler "
+            "(GET /pins?filter=) and the real REST client are run on thousands of texts and masks: the Spec (text = union of named statuses, refusal, "
+            "print-and-parse keeps the named statuses, the filter that reaches Cluster.StatusAll[Local]) and equality with the model.",
     "note": "Trusted: Lean kernel (+propext, Classical.choice, Quot.sound), hand-written model/spec, the Go harness with its scripted daemon and canned "
             "member replies. Known findings K02/K02f (Status says pin_error where StatusAll says unexpectedly_unpinned), K04 (unreachable member cluster_error for every "
             "listed CID), K06e/K06r (status remote with an error text after a failed housekeeping unpin) are reported as KNOWN-FINDING.",
